@@ -2,7 +2,7 @@
    when it returns, the view the plain try_ form returns; so C01's view clauses reduce to the
    characterisation of the plain try_ forms. *)
 From Coq Require Import NArith ZArith List Bool String Lia ZifyBool ZifyN.
-From BM Require Import Base.Outcome Base.Prims Base.Layout Base.Tactics Spec.CastSpec.
+From BM Require Import Base.Outcome Base.Prims Base.Layout Base.Tactics Spec.CastSpec Spec.MustSpec.
 From BM Require Import Proofs.CastBase Proofs.CastDerive Proofs.CastSlice Proofs.CastSliceMut Proofs.CastRef
   Proofs.CastValue Proofs.CastPanicking Proofs.CastChecked Proofs.CastMust Proofs.RootWrappers.
 From BM.Gen Require Internal Root Checked Must.
